@@ -209,7 +209,7 @@ Definition default_retry (n : nat) : retry_cfg := mkretry c08_s3_glitches n.
 
 (* S3ChunkStore.request(method, url, ignored_errors=ign) for a method urllib3 retries (GET, PUT): the final status
    when it returns.  One answer is consumed per attempt; no answer left = nobody listens. *)
-Fixpoint request_run (fl : list Z) (n : nat) (ign : list Z) (answers : list answer) : outcome Z :=
+Fixpoint request_run (fl : list Z) (n : nat) (ign : list Z) (answers : list answer) {struct answers} : outcome Z :=
   match answers with
   | [] => Raise (standard_errors (error_map SS3) R_ConnectionError)
   | AFail e :: _ => Raise (standard_errors (error_map SS3) e)
@@ -227,7 +227,7 @@ Fixpoint request_run (fl : list Z) (n : nat) (ign : list Z) (answers : list answ
     else Ret s                      (* unknown request(): nothing is known to be checked *)
   end.
 (* the attempts a request uses up (for the server side: which PUTs arrived) *)
-Fixpoint request_attempts (fl : list Z) (n : nat) (answers : list answer) : nat :=
+Fixpoint request_attempts (fl : list Z) (n : nat) (answers : list answer) {struct answers} : nat :=
   match answers with
   | AStatus s :: rest => if memZ s fl then match n with O => 1 | S n' => S (request_attempts fl n' rest) end else 1
   | _ => 1
